@@ -102,9 +102,26 @@ def select_behaviours(behs, n, rnd):
     covered = set()
     chosen = []
     remaining = set(range(len(pool)))
+    # phase 0: every CLASS of step the model reaches - kind of step with its stage, account context, verdict, effect size,
+    # class of named record, situation of its slate - is exercised by at least one behaviour, whatever histories TLC's
+    # workers happened to print (class-level coverage does not depend on the draw)
+    ones = [set(ft for ft in fs if ft[0] == "1") for fs in feats]
+    cov1 = set()
+    while len(chosen) < n // 2 and remaining:
+        best, gain = None, 0
+        for i in remaining:
+            g = len(ones[i] - cov1)
+            if g > gain:
+                best, gain = i, g
+        if best is None:
+            break
+        chosen.append(best)
+        cov1 |= ones[best]
+        covered |= feats[best]
+        remaining.discard(best)
     if FOCUS:
         ffeats = [set(ft for ft in fs if any(x in str(ft) for x in FOCUS)) for fs in feats]
-        while len(chosen) < (2 * n) // 3 and remaining:
+        while len(chosen) < (5 * n) // 6 and remaining:
             best, gain = None, 0
             for i in remaining:
                 g = len(ffeats[i] - covered)
